@@ -135,10 +135,19 @@ class Machine:
     def _sty(self, obj, n):
         return [[[self.inst_id(x), self.texts.tid(str(x))] for x in obj.ansi_settings_at(i)] for i in range(n)]
 
+    def raw_table(self, obj, k):
+        """The private change-point table, read only (for DRIFT detection against spec/ChangePoints.tla)."""
+        try:
+            fm = obj._fmts if k == 'S' else obj._s._fmts
+            return [[int(key), [[self.inst_id(x), self.texts.tid(str(x))] for x in pt.add],
+                     [[self.inst_id(x), self.texts.tid(str(x))] for x in pt.rem]] for key, pt in sorted(fm.items())]
+        except Exception:
+            return [[-1, [], []]]
+
     def snapshot(self, obj):
         k = self.kind_of(obj)
         if k == 'P':
-            return {'k': 'P', 't': cps(obj), 's': [[] for _ in obj], 'p': cps(obj), 'q': cps(obj), 'b': 0}
+            return {'k': 'P', 't': cps(obj), 's': [[] for _ in obj], 'p': cps(obj), 'q': cps(obj), 'b': 0, 'f': []}
         A = self.lib.AnsiString
         broken = 0
         text = obj.base_str
@@ -166,7 +175,7 @@ class Machine:
         finally:
             A.WITH_ASSERTIONS = saved
         p = str.__str__(obj) if k == 'A' else q
-        return {'k': k, 't': cps(text), 's': sty, 'p': cps(p), 'q': cps(q), 'b': broken}
+        return {'k': k, 't': cps(text), 's': sty, 'p': cps(p), 'q': cps(q), 'b': broken, 'f': self.raw_table(obj, k)}
 
     # ---- registers -----------------------------------------------------------------------------
     def reg_of(self, obj):
